@@ -460,13 +460,24 @@ class Registration(Endpoint):
 
         logger.debug("Stored client info in CDB under cid={}".format(client_id))
 
+        _had_previous = client_id in _context.cdb
+        _previous = _context.cdb[client_id] if _had_previous else None
         _context.cdb[client_id] = _cinfo
+        _stub = _cinfo
         _cinfo = self.do_client_registration(
             request,
             client_id,
             ignore=["redirect_uris", "policy_uri", "logo_uri", "tos_uri"],
         )
         if isinstance(_cinfo, ResponseMessage):
+            # A refused registration leaves nothing behind
+            if _had_previous:
+                _context.cdb[client_id] = _previous
+            else:
+                del _context.cdb[client_id]
+            _rat = _stub.get("registration_access_token")
+            if _rat in _context.registration_access_token:
+                del _context.registration_access_token[_rat]
             return _cinfo
 
         args = dict([(k, v) for k, v in _cinfo.items() if k in self.response_cls.c_param])
